@@ -1,26 +1,26 @@
-SPECIFICATION MCSpec
+SPECIFICATION GenSpec
 CONSTANTS
  N = 3
  T = 2
  NV = 1
- Cmds = {1, 2, 3}
+ Cmds = {1, 2, 3, 4, 5, 6, 7}
  RepostAppends = TRUE
  Defect = "none"
  Honest = {1, 2}
  Args <- ArgsCore
- ByzReqs <- Byz3
- MaxByz = 1
- Faults <- FApi
- MaxFault = 1
+ ByzReqs <- Byz3Out
+ MaxByz = 2
+ Faults <- FCodes
+ MaxFault = 2
  Tampers <- TAll
- MaxTamper = 1
+ MaxTamper = 2
  Plants <- PNone
  MaxPlant = 0
  Statuses <- SNone
  MaxChain = 0
  InitSt <- IActive
  Policy = "free"
-INVARIANTS Safety Robust
-PROPERTIES MCDeleteOnlyOwn MCRefusedNoEffect
-VIEW View
+ GenLen = 14
+INVARIANTS Emit
+CONSTRAINT Stop
 CHECK_DEADLOCK FALSE
